@@ -1430,9 +1430,16 @@ def repeat(a, n, axis=None):
     return SArray([x for x in a.items for _ in range(int(n))], a.dtype)
 
 
-def diff(a):
+def diff(a, n=1, axis=-1, prepend=None, append=None):
     a = _arr(a)
-    return SArray([_num(y) - _num(x) for x, y in zip(a.items, a.items[1:])], a.dtype if a.dtype.kind != "b" else int64)
+    if n != 1:
+        raise Unsupported("diff(n=%r)" % (n,))
+    its = list(a.items)
+    if prepend is not None:
+        its = (list(_arr(prepend).items) if isinstance(prepend, (SArray, list, tuple)) else [prepend]) + its
+    if append is not None:
+        its = its + (list(_arr(append).items) if isinstance(append, (SArray, list, tuple)) else [append])
+    return SArray([_num(y) - _num(x) for x, y in zip(its, its[1:])], a.dtype if a.dtype.kind != "b" else int64)
 
 
 def insert(a, pos, v):
